@@ -18,6 +18,7 @@ import ChalkModel.OpsBuiltin
 import ChalkModel.OpsDisplay
 import ChalkModel.OpsLogging
 import ChalkModel.OpsFixedPoint
+import ChalkModel.OpsTruncate
 
 namespace Chalk
 open Sexp
@@ -63,7 +64,7 @@ def opsIR : Sexp → Option Sexp
 
 /-- all op tables; add new ones at the end of this list -/
 def allOps : List (Sexp → Option Sexp) :=
-  [opsIR, opsMatch, opsAggregate, opsInPlace, opsCoherence, Chalk.Sem.opsSem, opsCanon, opsUnify, Chalk.Orphan.opsOrphan, opsResolve, Chalk.Builtin.opsBuiltin, Chalk.Display.opsDisplay, Chalk.Logging.opsLogging, opsFixedPoint]
+  [opsIR, opsMatch, opsAggregate, opsInPlace, opsCoherence, Chalk.Sem.opsSem, opsCanon, opsUnify, Chalk.Orphan.opsOrphan, opsResolve, Chalk.Builtin.opsBuiltin, Chalk.Display.opsDisplay, Chalk.Logging.opsLogging, opsFixedPoint, opsTruncate]
 
 def dispatch (req : Sexp) : Sexp :=
   match allOps.findSome? (fun f => f req) with
